@@ -28,16 +28,16 @@ static void symname(Nm& n) { n.s[0] = nondet_u16(); VX_ASSUME(n.s[0] >= 'a' && n
 static bool same(const Nm& a, const Nm& b, bool dtd) { return dtd ? a.s[0] == b.s[0] : (a.uri == b.uri && a.s[0] == b.s[0]); }
 extern "C" void harness_simplecm(void) {
   VxMM mm;
-  alignas(8) char qs[N + 2][sizeof(QName)]; alignas(8) char cms[sizeof(SimpleContentModel)];
+  VxRaw<QName> qs[N + 2]; VxRaw<SimpleContentModel> cms;
   Nm a, b, c[N]; symname(a); symname(b);
   bool dtd = nondet_bool();
-  SimpleContentModel* cm = (SimpleContentModel*)cms;
-  cm->fFirstChild = mkq(qs[N], a); cm->fSecondChild = mkq(qs[N + 1], b); cm->fDTD = dtd; *(MemoryManager**)&cm->fMemoryManager = &mm;
+  SimpleContentModel* cm = &cms.obj;
+  cm->fFirstChild = mkq(&qs[N].obj, a); cm->fSecondChild = mkq(&qs[N + 1].obj, b); cm->fDTD = dtd; *(MemoryManager**)&cm->fMemoryManager = &mm;
   unsigned op = nondet_u8(); VX_ASSUME(op == ContentSpecNode::Leaf || op == ContentSpecNode::ZeroOrOne || op == ContentSpecNode::ZeroOrMore || op == ContentSpecNode::OneOrMore
                                        || op == ContentSpecNode::Choice || op == ContentSpecNode::Sequence);
   cm->fOp = (ContentSpecNode::NodeTypes)op;
   XMLSize_t n = nondet_u64(); VX_ASSUME(n <= N);
-  QName* kids[N]; for (int i = 0; i < N; i++) { symname(c[i]); kids[i] = mkq(qs[i], c[i]); }
+  QName* kids[N]; for (int i = 0; i < N; i++) { symname(c[i]); kids[i] = mkq(&qs[i].obj, c[i]); }
   XMLSize_t fail = 99; bool threw = false; bool ok = false;
   try { ok = cm->SimpleContentModel::validateContent(kids, n, 0, &fail, &mm); } catch (const XMLException&) { threw = true; }
   bool all_a = true; for (XMLSize_t i = 0; i < N; i++) if (i < n && !same(c[i], a, dtd)) all_a = false;
@@ -61,16 +61,16 @@ extern "C" void harness_simplecm(void) {
 #endif
 extern "C" void harness_mixedcm(void) {
   VxMM mm;
-  alignas(8) char qs[N + M][sizeof(QName)]; alignas(8) char cms[sizeof(MixedContentModel)];
+  VxRaw<QName> qs[N + M]; VxRaw<MixedContentModel> cms;
   Nm decl[M], c[N]; QName* dq[M]; ContentSpecNode::NodeTypes ty[M];
   bool dtd = nondet_bool();
   XMLSize_t cnt = nondet_u64(); VX_ASSUME(cnt >= 1 && cnt <= M);
-  for (int i = 0; i < M; i++) { symname(decl[i]); if (i == 0) { decl[0].uri = XMLElementDecl::fgPCDataElemId; decl[0].s[0] = '#'; }   /* entry 0 is #PCDATA: never an element name */ dq[i] = mkq(qs[N + i], decl[i]); ty[i] = ContentSpecNode::Leaf; }
-  MixedContentModel* cm = (MixedContentModel*)cms;
+  for (int i = 0; i < M; i++) { symname(decl[i]); if (i == 0) { decl[0].uri = XMLElementDecl::fgPCDataElemId; decl[0].s[0] = '#'; }   /* entry 0 is #PCDATA: never an element name */ dq[i] = mkq(&qs[N + i].obj, decl[i]); ty[i] = ContentSpecNode::Leaf; }
+  MixedContentModel* cm = &cms.obj;
   cm->fCount = cnt; cm->fChildren = dq; cm->fChildTypes = ty; cm->fOrdered = false; cm->fDTD = dtd; *(MemoryManager**)&cm->fMemoryManager = &mm;
   XMLSize_t n = nondet_u64(); VX_ASSUME(n <= N);
   QName* kids[N]; bool pcd[N];
-  for (int i = 0; i < N; i++) { symname(c[i]); pcd[i] = nondet_bool(); if (pcd[i]) c[i].uri = XMLElementDecl::fgPCDataElemId; kids[i] = mkq(qs[i], c[i]); }
+  for (int i = 0; i < N; i++) { symname(c[i]); pcd[i] = nondet_bool(); if (pcd[i]) c[i].uri = XMLElementDecl::fgPCDataElemId; kids[i] = mkq(&qs[i].obj, c[i]); }
   XMLSize_t fail = 99; bool ok = cm->MixedContentModel::validateContent(kids, n, 0, &fail, &mm);
   bool want = true; XMLSize_t firstBad = 99;
   for (XMLSize_t i = 0; i < N; i++) if (i < n && !pcd[i]) {
